@@ -73,7 +73,8 @@ def configs():
 # ---------------------------------------------------------------------------------------------
 # oracle-side classification of one element (only used to name keys / cells, never for a verdict):
 # along the documented default step sequence, is the documented difference quotient of the test
-# function non-finite for every step ('all-nan'), for some step ('partial-nan') or for none ('finite')?
+# function non-finite for so many steps that no estimate can be formed ('all-nan'), for some step
+# ('partial-nan') or for none ('finite')?
 
 _CLASS = {}
 
@@ -86,7 +87,7 @@ def column_class(fname, u, method, n, order):
     mo = sm.method_order(method, n, order)
     gen = 'Max' if method in REAL_METHODS else 'Min'
     steps = [float(np.asarray(s).ravel()[0]) for s in sm.steps(gen, u, method, n, mo)[0]]
-    dead = 0
+    live = []
     with np.errstate(all='ignore'):
         x = np.float64(u)
         fx = f(x)
@@ -103,9 +104,18 @@ def column_class(fname, u, method, n, order):
                 q = f(x + _SQRT_J * h) + f(x - _SQRT_J * h) + (fx if n % 4 == 0 else 0.0)
             else:
                 q = f(x + 1j * h)
-            if not np.all(np.isfinite(q)):
-                dead += 1
-    cls = 'all-nan' if dead == len(steps) else ('partial-nan' if dead else 'finite')
+            live.append(bool(np.all(np.isfinite(q))))
+    # one final estimate needs a run of consecutive finite quotients: the rule (documented length), the
+    # Richardson extrapolation (documented: 2 terms, fewer for short sequences) and the 3-term Wynn step
+    rule_len = sm.rule_length(method, n, order)
+    rows = max(len(steps) - rule_len + 1, 1)
+    rich = min(2, rows - 1)
+    need = rule_len + rich + (2 if rows - rich > 2 else 0)
+    run = best = 0
+    for ok in live:
+        run = run + 1 if ok else 0
+        best = max(best, run)
+    cls = 'all-nan' if best < need else ('finite' if all(live) else 'partial-nan')
     _CLASS[key] = cls
     return cls
 
@@ -188,10 +198,10 @@ class Unit(object):
     def lib(self, x, what, case):
         """library call with shape check; returns (der, est) or None after recording a violation."""
         self.acc.evaluations += 1
-        vals = set(np.asarray(x, dtype=float).ravel().tolist())
         try:
             der, est = call_lib(self.fname, self.method, self.n, self.order, x)
         except Failed as e:
+            vals = set(np.asarray(x, dtype=float).ravel().tolist())
             cond = worst_class(self.cls[u] for u in vals) + '-elements'
             self.violation('raised-' + e.kind, cond, dict(case, kind=what),
                            'x=%s raised %s' % (_txt(x), e), self.rank(np.shape(x)))
@@ -241,19 +251,18 @@ class Unit(object):
             return 'failed'
         der = res[0].ravel()
         flat = x.ravel()
-        expected = np.empty(der.shape, dtype=der.dtype)
-        usable = np.ones(der.shape, dtype=bool)
-        for i in range(flat.size):
-            r = refs.get(float(flat[i]))
-            if r is None or r[0].dtype != der.dtype:
-                usable[i] = r is not None
-                expected[i] = der[i] if r is None else np.nan
-                continue
-            expected[i] = r[0].ravel()[i]
-        same = bits_equal(der, expected) | ~usable
-        dt_bad = [i for i in range(flat.size) if refs.get(float(flat[i])) is not None
-                  and refs[float(flat[i])][0].dtype != der.dtype]
-        bad = [i for i in viewpoints if not same[i] or i in dt_bad]
+        mism = np.zeros(flat.size, dtype=bool)
+        for u in set(flat.tolist()):
+            r = refs.get(u)
+            if r is None:
+                continue          # the constant array itself failed (already reported)
+            idx = np.flatnonzero(flat == u)
+            rd = r[0].ravel()
+            if rd.dtype != der.dtype:
+                mism[idx] = True
+            else:
+                mism[idx] = ~bits_equal(der[idx], rd[idx])
+        bad = [i for i in viewpoints if mism[i]]
         if not bad:
             return 'ok'
         # one violation per array and key (simplest position first)
